@@ -63,6 +63,10 @@ def run_cases(wc, pid, cases, timeout=900, sub=None, par=1):
             break
         tail = (err or "").strip().split("\n")
         msg = tail[0][:160] if tail and tail[0] else "rc=%s" % rc
+        for ln in tail:   # the Go runtime's own report, if any
+            if ln.startswith("panic:") or ln.startswith("fatal error:"):
+                msg = ln[:200]
+                break
         obs[bad] = ("HANG " if rc == -9 else "CRASH ") + msg.replace("\t", " ")
         start = bad + 1
     lines = "".join("%d\t%s\t%s\n" % (i, cases[i], obs[i] if obs[i] is not None else "MISSING") for i in range(len(cases)))
